@@ -162,6 +162,7 @@ def check(ctx):
     if (P.pipe_info().processed, P.pipe_info().yielded) != (0, 0):
         ctx.fail('element-calls-counted', 'single-element calls changed pipe_info to %s' % P.pipe_info(), dict(element_calls=True))
     wrapped_stage_cases(ctx)
+    reentrant_cases(ctx)
     from harness.props import multistream
     multistream.run(ctx, ctx.scale(40, 400), {'counters'}, 'multi-C13', iters=True)
 
@@ -185,6 +186,60 @@ def _wrapped(nw_base, nw_variant, n1, n2, when):
         held.append((v, info(variant), info(base)))
     res.update(held=held, variant_end=info(variant), base_end=info(base))
     return res
+
+
+WALK = None
+
+
+def _weight(node):
+    # a recursive tree walk: the function itself streams the children through the SAME stage
+    if isinstance(node, int):
+        return node
+    return sum(WALK(iter(node)))
+
+
+def _reentrant(trees):
+    global WALK
+    from generatorpipeline import pipeline
+    WALK = pipeline(0)(_weight)
+    held = []
+    for v in WALK(iter(trees)):
+        held.append((v, WALK.pipe_info().processed, WALK.pipe_info().yielded))
+    return held
+
+
+def _nodes(t):
+    return 1 if isinstance(t, int) else 1 + sum(_nodes(c) for c in t)
+
+
+def reentrant_cases(ctx):
+    """the wrapped function may itself run streams of the same stage (in-process): every stream's elements are counted, the
+    nested ones included, at every moment an output is held"""
+    rng = ctx.rng
+    for _ in range(ctx.scale(4, 20)):
+        def tree(d):
+            if d == 0 or rng.random() < 0.3:
+                return rng.randint(1, 9)
+            return [tree(d - 1) for _ in range(rng.randint(1, 3))]
+        trees = [tree(3) for _ in range(rng.randint(1, 4))]
+        case = dict(reentrant=True, trees=trees)
+        ctx.case(('reentrant', str(trees)), any(isinstance(t, list) for t in trees), sample=case)
+        ctx.count('reentrant_function')
+        st, held = pipelib.isolated(_reentrant, (trees,), timeout=30)
+        if st != 'ok':
+            ctx.fail('wrapped-stage-fails', 'a stage whose function streams through the same stage: %s %s' % (st, str(held)[-300:]), case)
+            continue
+        done = 0
+        for k, (v, p, y) in enumerate(held):
+            done += _nodes(trees[k])            # every node of the trees handed out so far was one processed element of some stream
+            if (p, y) != (done, done) or v != _weight_plain(trees[k]):
+                ctx.fail('pipe-info-counts-wrong', 'holding output %d of a re-entrant walk: value %s, processed=%d yielded=%d, expected %s, %d/%d' % (
+                    k + 1, v, p, y, _weight_plain(trees[k]), done, done), case)
+                break
+
+
+def _weight_plain(t):
+    return t if isinstance(t, int) else sum(_weight_plain(c) for c in t)
 
 
 def wrapped_stage_cases(ctx):
@@ -225,6 +280,9 @@ def replay(ctx, data):
         return
     if case.get('wrapped_stage'):
         wrapped_stage_cases(ctx)
+        return
+    if case.get('reentrant'):
+        reentrant_cases(ctx)
         return
     if 'streams' in case:
         from harness.props import multistream
